@@ -1,4 +1,5 @@
 import QuantemModel.Props.C11
+import QuantemModel.Model.VectorFront
 /-!
 C11, growth round 6: **whole histories with REJECTED calls refine the history without them.**
 
@@ -326,6 +327,97 @@ theorem history_drops_rejected (ops : List Op) : ∀ {s : State}, Inv s → run 
 
 theorem all_histories_drop_rejected (ops : List Op) : run init ops = run init (accepted init ops) :=
   history_drops_rejected ops inv_init
+
+/-! ### argument forms in front of `from_shape` (Model/VectorFront.lean) -/
+
+/-- **the front end refines the value-level `from_shape`**: a call on argument forms is either rejected
+with the state untouched, or it IS the value-level call on the validated shape and the normalised
+`num_fields` / `fields` / `units` -/
+theorem front_refines_core (s : State) (shape : ShapeArg) (nf : Option NumArg) (fields units : Option SeqArg) :
+    ((opFromShapeFront s shape nf fields units).1 = s ∧ ∃ e, (opFromShapeFront s shape nf fields units).2 = .err e) ∨
+    ∃ sh nf' fs' us', validateShapeArg shape = .ok sh ∧ frontFields nf fields = .ok (nf', fs') ∧
+      opFromShapeFront s shape nf fields units = opFromShape s sh nf' fs' us' := by
+  cases h1 : validateShapeArg shape with
+  | error e => exact Or.inl (by simp [opFromShapeFront, h1])
+  | ok sh =>
+    cases h2 : frontFields nf fields with
+    | error e => exact Or.inl (by simp [opFromShapeFront, h1, h2])
+    | ok p =>
+      obtain ⟨nf', fs'⟩ := p
+      cases h3 : resolveFields nf' fs' with
+      | error e => exact Or.inl (by simp [opFromShapeFront, h1, h2, h3])
+      | ok fs =>
+        cases units with
+        | none => exact Or.inr ⟨sh, nf', fs', none, rfl, rfl, by simp [opFromShapeFront, h1, h2, h3]⟩
+        | some u =>
+          cases u with
+          | notSeq => exact Or.inl (by simp [opFromShapeFront, h1, h2, h3])
+          | seq us => exact Or.inr ⟨sh, nf', fs', some us, rfl, rfl, by simp [opFromShapeFront, h1, h2, h3]⟩
+
+/-- creation through any argument form keeps the structural invariant -/
+theorem front_preserves_invariant {s : State} (hI : Inv s) (shape : ShapeArg) (nf : Option NumArg)
+    (fields units : Option SeqArg) : Inv (opFromShapeFront s shape nf fields units).1 := by
+  rcases front_refines_core s shape nf fields units with ⟨h, _⟩ | ⟨sh, nf', fs', us', _, _, h⟩
+  · rw [h]; exact hI
+  · rw [h]; exact inv_fromShape hI sh nf' fs' us'
+
+/-- a rejected creation call (wrong argument type or value) leaves no trace -/
+theorem front_rejected_no_effect (s : State) (shape : ShapeArg) (nf : Option NumArg) (fields units : Option SeqArg)
+    {e : Err} (h : (opFromShapeFront s shape nf fields units).2 = .err e) :
+    (opFromShapeFront s shape nf fields units).1 = s := by
+  rcases front_refines_core s shape nf fields units with ⟨h', _⟩ | ⟨sh, nf', fs', us', _, _, h'⟩
+  · exact h'
+  · rw [h'] at h ⊢
+    exact of_pair (fun _ _ => fromShape_rej) h
+
+/-- every accepted shape consists of positive dimensions (so `nested_list` builds one cell per index) -/
+theorem checkDims_pos : ∀ (ds : List DimArg) (sh : List Int), checkDims ds = .ok sh → ∀ d ∈ sh, 0 < d := by
+  intro ds
+  induction ds with
+  | nil => intro sh h; cases h; simp
+  | cons d ds ih =>
+    intro sh h
+    unfold checkDims at h
+    cases hd : d.check with
+    | error e => rw [hd] at h; cases h
+    | ok i =>
+      rw [hd] at h
+      cases hr : checkDims ds with
+      | error e => rw [hr] at h; cases h
+      | ok is =>
+        rw [hr] at h
+        cases h
+        intro x hx
+        rcases List.mem_cons.mp hx with rfl | hx
+        · cases d with
+          | int k => simp only [DimArg.check] at hd; split at hd <;> cases hd; omega
+          | bool b => simp only [DimArg.check] at hd; split at hd <;> cases hd; omega
+          | other => cases hd
+        · exact ih is hr x hx
+
+/-- **the first offending dimension decides**: dimensions in front of it that pass do not matter, the
+ones behind it are never looked at -/
+theorem first_bad_dim_wins (pre : List DimArg) (d : DimArg) (post : List DimArg) (e : Err)
+    (hpre : ∀ x ∈ pre, ∃ i, x.check = .ok i) (hd : d.check = .error e) :
+    validateShapeArg (.tuple (pre ++ d :: post)) = .error e := by
+  simp only [validateShapeArg]
+  induction pre with
+  | nil => simp [checkDims, hd]
+  | cons x xs ih =>
+    obtain ⟨i, hi⟩ := hpre x (by simp)
+    have := ih (fun y hy => hpre y (by simp [hy]))
+    simp [checkDims, hi, this]
+
+/-- `True` is a dimension of length one, `False` is rejected like `0`; `2.0` is a TypeError — and behind a
+`0` it is never reached -/
+example : validateShapeArg (.tuple [.bool true, .int 2]) = .ok [1, 2] := rfl
+example : validateShapeArg (.tuple [.int 2, .bool false]) = .error .valueError := rfl
+example : validateShapeArg (.tuple [.int 2, .int 0, .other]) = .error .valueError :=
+  first_bad_dim_wins [.int 2] (.int 0) [.other] _ (by simp [DimArg.check]) rfl
+example : validateShapeArg (.tuple [.other, .int 0]) = .error .typeError := rfl
+example : (opFromShapeFront init (.tuple [.int 2]) (some (.intLike 2)) (some (.seq ["x", "y"])) none).2 = .newVec 0 := rfl
+example : (opFromShapeFront init (.tuple [.int 2]) (some (.intLike 2)) none none).2 = .err .typeError := rfl
+example : (opFromShapeFront init (.tuple [.int 2]) none (some (.seq ["x"])) (some .notSeq)).2 = .err .typeError := rfl
 
 /-! ### one fancy assignment with repeated / unsorted positions: the last writer wins -/
 
